@@ -143,7 +143,16 @@ def run_pow(facts):
         info["states"] += 1
         vs = ind.variant(sg)
         acc_l = [l for l, ty in vs.items() if "rational::Rational" in ty or "Ratio<" in ty]
-        cnt_l = [l for l, ty in vs.items() if "BigInt" in ty or "BigUint" in ty]
+        cnt_l = [l for l, ty in vs.items() if ("BigInt" in ty or "BigUint" in ty) and "Range<" not in ty]
+        rng_l = [l for l, ty in vs.items() if "Range<" in ty and ("BigInt" in ty or "BigUint" in ty)]
+        range_counter = False
+        if not cnt_l and rng_l:
+            # `for _ in num::range(0, |n|)`: the iterator is the counter (the number of items it still has); a moved-from copy
+            # of it may still be around - the one the loop drives is the last one assigned
+            live_r = [l for l in rng_l if isinstance(ind.it.read_ref(sg.store, Ref(sg.frame, l)), Agg)
+                      and ind.it.read_ref(sg.store, Ref(sg.frame, l)).kind == "numrange"]
+            if live_r:
+                cnt_l, range_counter = [max(live_r)], True
         if len(acc_l) != 1 or len(cnt_l) != 1:
             return ind.dom, body, None, None, "loop state of eval::pow: accumulators %s, counters %s (one of each expected)" % (acc_l, cnt_l)
         A, C = acc_l[0], cnt_l[0]
@@ -152,8 +161,14 @@ def run_pow(facts):
         st = sg.store
         acc0 = _rat(it.read_ref(st, Ref(frame, A)))
         c0 = it.read_ref(st, Ref(frame, C))
+        wrap = (lambda v_: Agg("numrange", None, None, None, (v_,))) if range_counter else (lambda v_: v_)
+        unwrap = (lambda v_: v_.field(0) if isinstance(v_, Agg) and v_.kind == "numrange" else v_)
+        if range_counter:
+            if not (isinstance(c0, Agg) and c0.kind == "numrange"):
+                return ind.dom, body, None, None, "the range iterator of eval::pow's loop is not a counting range (%r)" % (c0,)
+            c0 = unwrap(c0)
         st1 = it.write_ref(st, Ref(frame, A), Agg("adt", "rational::Rational", 0, "Rational", (ACC,)))
-        st1 = it.write_ref(st1, Ref(frame, C), CNT)
+        st1 = it.write_ref(st1, Ref(frame, C), wrap(CNT))
         turn = ind.turn(sg, st1)
         dom, it = ind.dom, ind.it
         back = [t for t in turn if t.kind == "stop"]
@@ -163,7 +178,7 @@ def run_pow(facts):
         if dom.decide(b.store, T("is_zero", CNT)) is not False:
             return dom, body, None, None, "the loop of eval::pow continues without having tested its counter non-zero"
         acc1 = _rat(it.read_ref(b.store, Ref(frame, A)))
-        c1 = it.read_ref(b.store, Ref(frame, C))
+        c1 = unwrap(it.read_ref(b.store, Ref(frame, C)))
         X = None
         if isinstance(acc1, T) and acc1.op == "*" and len(acc1.args) == 2 and ACC in acc1.args:
             X = acc1.args[1] if acc1.args[0] == ACC else acc1.args[0]
@@ -191,7 +206,7 @@ def run_pow(facts):
                 return dom, body, None, None, "the loop of eval::pow is left on a path that did not test its counter zero"
         closed = T("*", acc0, T("pow", X, T("abs", c0)))
         st2 = it.write_ref(st, Ref(frame, A), Agg("adt", "rational::Rational", 0, "Rational", (closed,)))
-        st2 = it.write_ref(st2, Ref(frame, C), K(0))
+        st2 = it.write_ref(st2, Ref(frame, C), wrap(K(0)))
         for t in ind.turn(sg, st2):
             if t.kind == "stop":
                 return ind.dom, body, None, None, "with the counter at zero the loop of eval::pow is entered again"
